@@ -21,6 +21,9 @@ CLAIMED = {
  "C03": dict(text="Static analysis: finite-domain specialisation (conditional constant propagation over MIR) of Lexer::next over all 16x3 (category code, scanner state) cells, of read_control_sequence over 16 categories and of CatCode::try_from over all 256 bytes, compared with tables transcribed from TeX: The Program; cursor/trace-key co-update on every path of every raw-lexer method; the unsafe ^^ byte write is unreachable when either ASCII check fails. Exhaustive over those finite domains. Line trimming, \\endlinechar insertion, trace line/column arithmetic and key-range sufficiency are value-level and not decided.",
              note=TRUST+"Reference tables transcribed by hand from TeX: The Program §§207, 343-355.",
              tech="decision-table extraction by abstract interpretation of MIR over finite key domains + CFG pairing rule"),
+ "C06": dict(text="Static analysis (partial claim). Decided: the operator table of \\advance/\\multiply/\\divide (silent wrap / checked + error / checked + error; an error means no store) by finite-domain specialisation of the Op impls and apply_to_variable; the nine unit conversion fractions and both keyword->unit tables against TeX §458 (exhaustive over the enum); every potential-panic site of the numeric modules reachable from the interpreter is discharged by a checked guard, its type, a size or an audited argument, or is a reproduced finding. NOT decided, and said so: bit-exact arithmetic results, print/scan round trip and rounding — the numeric core of C06 has no static argument in reach.",
+             note=TRUST+"Audited discharges are arguments by reading (listed with their one-line invariant in tables/pps_audited.json).",
+             tech="decision-table extraction + constant-table comparison + potential-panic-site enumeration with guard discharge over the call graph"),
  "C07": dict(text="Static analysis: sibling agreement of the four token-skipping loops on nesting discipline (unexpanded reads only, +1 on if / -1 on fi, else/or honoured only at depth 0, no other exit); the closer validity table extracted by finite-domain specialisation (exhaustive 4x3) against TeX's if_limit rule; branch-stack push/pop discipline on every path; the signed-remainder parity pattern; expand-exactly-once and token conservation in both \\expandafter implementations. Does not decide operand evaluation nor program equivalence of the two \\expandafter versions.",
              note=TRUST+"Unrecognised code shapes in the anchored loops stop the analysis (exit 2) rather than produce a verdict.",
              tech="sibling-shape comparison on CFG/dominators + decision-table extraction + def-use token conservation + bug-pattern lint"),
